@@ -8,4 +8,12 @@ require (
 	pgregory.net/rapid v1.3.0
 )
 
+require (
+	cloud.google.com/go/compute/metadata v0.3.0 // indirect
+	github.com/bradfitz/latlong v0.0.0-20170410180902-f3db6d0dff40 // indirect
+	github.com/rwcarlsen/goexif v0.0.0-20190401172101-9e8deecbddbd // indirect
+	go4.org v0.0.0-20230225012048-214862532bf5 // indirect
+	golang.org/x/crypto v0.38.0 // indirect
+)
+
 replace perkeep.org => /repo
